@@ -4,6 +4,7 @@ import (
 	"encoding/json"
 	"fmt"
 	"os"
+	"os/exec"
 	"path/filepath"
 	"regexp"
 	"sort"
@@ -23,12 +24,24 @@ type PropSpec struct {
 }
 
 type KnownFinding struct {
+	ID         string `json:"id"`
 	Property   string `json:"property"`
-	Obligation string `json:"obligation"`
+	Obligation string `json:"obligation"` // failing obligation, or "witness-only" for findings without an obligation yet
 	Witness    string `json:"witness"`
+	Test       string `json:"test"`   // test in replay/witnesses/defects_test.go that fails while the defect is present
 	Status     string `json:"status"` // open | fixed
 	Commit     string `json:"commit,omitempty"`
 	Note       string `json:"note,omitempty"`
+}
+
+// witnessStillFails replays the finding's witness against the real code (go test -overlay); true = the defect is still there
+func witnessStillFails(test string) (bool, string) {
+	if test == "" {
+		return true, "no witness test recorded"
+	}
+	cmd := exec.Command("/verif/replay/run_witnesses.sh", "-run", "^"+test+"$")
+	out, err := cmd.CombinedOutput()
+	return err != nil, firstLines(string(out), 6)
 }
 
 func matchAny(res []*regexp.Regexp, s string) bool {
@@ -128,7 +141,12 @@ func (x *Exec) runProperty(prop, mapFile, tier, evDir, dump, known, replayDir st
 		isKnown := false
 		for _, k := range findings {
 			if k.Property == prop && k.Status == "open" && k.Obligation == s.Name {
-				fmt.Printf("KNOWN-FINDING: property=%s %s: %s\n", prop, s.Name, k.Witness)
+				still, out := witnessStillFails(k.Test)
+				if !still {
+					fmt.Printf("obligation %s is a listed finding (%s) but its witness no longer fails against the real code: %s\n", s.Name, k.ID, strings.TrimSpace(out))
+					continue
+				}
+				fmt.Printf("KNOWN-FINDING: property=%s %s %s: %s\n", prop, k.ID, s.Name, k.Witness)
 				knownHit = append(knownHit, s.Name)
 				isKnown = true
 			}
@@ -146,6 +164,14 @@ func (x *Exec) runProperty(prop, mapFile, tier, evDir, dump, known, replayDir st
 			fmt.Printf("   %s at %s: %s\n", f.Status, f.Obl.Pos, strings.TrimSpace(firstLines(f.Obl.Src, 1)))
 		}
 		fmt.Printf("VIOLATION property=%s replay=%s no-failing-input-found\n", prop, rp)
+	}
+	for _, k := range findings {
+		if k.Property == prop && k.Status == "open" && k.Obligation == "witness-only" {
+			if still, _ := witnessStillFails(k.Test); still {
+				fmt.Printf("KNOWN-FINDING: property=%s %s (witness replay, no obligation yet): %s\n", prop, k.ID, k.Witness)
+				knownHit = append(knownHit, k.ID)
+			}
+		}
 	}
 	if nObl == 0 {
 		fmt.Printf("govc: property %s generated no obligations: the check is broken\n", prop)
